@@ -17,8 +17,17 @@ fn lr() -> impl Strategy<Value = LR> {
     ]
 }
 fn read_script() -> impl Strategy<Value = Vec<LR>> {
-    (prop::collection::vec(lr(), 0..8), prop_oneof![5 => Just(LR::Eof), 2 => Just(LR::Err), 2 => Just(LR::PendingForever)]).prop_map(|(mut v, end)| {
-        v.push(end);
+    // an error is reported once; what the local side would say if it were polled again afterwards is part of the script
+    let ending = prop_oneof![
+        5 => Just(vec![LR::Eof]),
+        1 => Just(vec![LR::Err]),
+        1 => Just(vec![LR::Err, LR::Eof]),
+        1 => Just(vec![LR::Err, LR::Err]),
+        1 => Just(vec![LR::Err, LR::Chunk(3), LR::Eof]),
+        2 => Just(vec![LR::PendingForever]),
+    ];
+    (prop::collection::vec(lr(), 0..8), ending).prop_map(|(mut v, end)| {
+        v.extend(end);
         v
     })
 }
@@ -26,7 +35,7 @@ fn write_script() -> impl Strategy<Value = Vec<LW>> {
     prop_oneof![
         3 => Just(vec![]),
         5 => prop::collection::vec(prop_oneof![5 => prop::sample::select(vec![1u32, 2, 5, 64]).prop_map(LW::AcceptUpTo), 2 => (1u8..=3).prop_map(LW::PendingUntil)], 0..8),
-        2 => (prop::collection::vec(prop::sample::select(vec![1u32, 3, 64]).prop_map(LW::AcceptUpTo), 0..4)).prop_map(|mut v| { v.push(LW::Err); v }),
+        2 => (prop::collection::vec(prop::sample::select(vec![1u32, 3, 64]).prop_map(LW::AcceptUpTo), 0..4), any::<bool>()).prop_map(|(mut v, again)| { v.push(LW::Err); if again { v.push(LW::Err); } v }),
     ]
 }
 
